@@ -9,6 +9,7 @@ structure DSt where
   s : St := {}
   prev : St := {}
   accs : List String := []
+  absFail : List String := []   -- lock-step disagreements between the store-level model and the accrual abstraction
   k : Nat := 0     -- upper bound on the banker's-rounded reward products formed so far (CLAccrual.St.k)
 
 def dec (x : String) : Option Dec := Dec.ofString? x
@@ -42,7 +43,7 @@ def dumpPool (d : DSt) (id : Nat) : List String :=
         | none => ["accum absent"])
     ++ ((d.s.accPos.filter (·.pool == id)).map fun a => s!"accpos {a.posId} shares={a.shares} per={DecCoins.render a.perShare} unclaimed={DecCoins.render a.unclaimed}")
     ++ [balLine (poolAddr id), balLine (feesAddr id)] ++ d.accs.map balLine
-    ++ [CLAccrual.invLine d.s id ds d.k]
+    ++ [if d.absFail.isEmpty then CLAccrual.invLine d.s id ds d.k else "inv FAIL lockstep " ++ " | ".intercalate d.absFail]
 
 /-- apply a handler result with transaction atomicity -/
 def fin {α} (d : DSt) (r : Res (St × α)) (f : α → String) : DSt × List String :=
@@ -98,6 +99,54 @@ def step (d : DSt) : List String → DSt × List String
 
   | _ => (d, ["bad-op"])
 
+/-- the abstract operations (`CLAccrual.Op`) that the successful concrete operation `ts` amounts to for (pool, denom) -/
+def absOps (before after : St) (ts : List String) (pool : Nat) (denom : String) : List CLAccrual.Op :=
+  let poolOf (id : Nat) : Option Nat := (getPosition before id).map (·.pool)
+  let afterTick : Int := match getPool after pool with | some p => p.tick | none => 0
+  let single : Bool := (before.positions.filter (·.pool == pool)).length == 1
+  match ts with
+  | ["createPosition", _, p, lo, hi, _, _, _, _, _, _] =>
+    if nat p != pool then [] else
+    match getPosition after before.nextPos with
+    | some q =>
+      (if (getPool before pool).map poolLive == some false then [.moveWithin afterTick] else [])
+        ++ [.openPos (int lo) (int hi) q.liq.raw]
+    | none => []
+  | ["decrease", _, pos, liq] =>
+    if poolOf (nat pos) != some pool then [] else
+    match CLAccrual.posIndex before pool (nat pos), dec liq with
+    | some i, some l =>
+      [.claim i, .change i (-l.raw)] ++ (if !poolHasPosition after pool then [.moveWithin 0] else [])
+    | _, _ => []
+  | ["increase", _, pos, _, _, _, _] =>
+    if poolOf (nat pos) != some pool then [] else
+    match CLAccrual.posIndex before pool (nat pos), getPosition before (nat pos), getPosition after before.nextPos with
+    | some i, some q, some q' =>
+      [.claim i, .change i (-q.liq.raw)] ++ (if single then [.moveWithin afterTick] else [])
+        ++ [.openPos q.lower q.upper q'.liq.raw]
+    | _, _, _ => []
+  | ["claim", _, ids] =>
+    (((ids.splitOn ",").filter (· ≠ "")).map nat).flatMap fun id =>
+      if poolOf id != some pool then [] else
+      match CLAccrual.posIndex before pool id with
+      | some i => [.claim i]
+      | none => []
+  | ["incentive", p, _, coins] =>
+    if nat p != pool then [] else
+    ((parseCoins coins).filter (·.1 == denom)).map fun c => .fee (c.2 * PREC)
+  | ["swapIn", _, p, din, _, _, _] =>
+    if nat p != pool then [] else after.lastTrace.flatMap (CLAccrual.evOps (din == denom))
+  | ["swapOut", _, p, _, _, din, _] =>
+    if nat p != pool then [] else after.lastTrace.flatMap (CLAccrual.evOps (din == denom))
+  | _ => []
+
+/-- lock-step check of one successful state-changing operation over every pool and denom -/
+def lockstepAll (before after : St) (ts : List String) (denoms : List String) : List String :=
+  after.pools.foldl (fun acc p =>
+    denoms.foldl (fun acc d =>
+      if CLAccrual.lockstep before after p.id d (absOps before after ts p.id d) then acc
+      else acc ++ [s!"{ts.head?.getD ""} pool={p.id} denom={d}"]) acc) []
+
 /-- `undo` rolls back to the state before the previous op (sent by the harness after a range-assertion panic) -/
 def step' (d : DSt) (ts : List String) : DSt × List String :=
   match ts with
@@ -105,7 +154,9 @@ def step' (d : DSt) (ts : List String) : DSt × List String :=
   | _ =>
     -- every operation rounds at most two products per position it touches (claim + re-checkpoint)
     let (d', out) := step d ts
-    ({ d' with prev := d.s, k := if ts.head? == some "reset" then 0 else d.k + 2 * ts.foldl (fun n t => n + (t.splitOn ",").length) 1 }, out)
+    let mutating := ["createPosition", "decrease", "increase", "claim", "incentive", "swapIn", "swapOut"].contains (ts.head?.getD "")
+    let fails := if mutating && (out.head?.getD "").startsWith "ok" then lockstepAll d.s d'.s ts (denoms d') else []
+    ({ d' with prev := d.s, absFail := (if ts.head? == some "reset" then [] else d.absFail) ++ fails, k := if ts.head? == some "reset" then 0 else d.k + 2 * ts.foldl (fun n t => n + (t.splitOn ",").length) 1 }, out)
 
 def run := runSuite ({} : DSt) step'
 end Sunrise.Driver.CLSuite
